@@ -298,7 +298,50 @@ func c15Clone(r *rand.Rand, t reflect.Type, fieldIdx int, tmpl bool) Case {
 }
 
 // executing the clone has the same effect on the data and produces the same log as the original
+// a call operation with templated arguments, cloned twice against changing data, each clone executed: every clone
+// renders the arguments it was configured with against the data of ITS time, and the configured operation is untouched
+func c15CallClones(r *rand.Rand) Case {
+	var fail []string
+	args := func() map[string]any {
+		return map[string]any{"v": "{{ .x }}", "n": map[string]any{"w": "<{{ .x }}>", "plain": "p"}, "k": 7}
+	}
+	pn := guard(func() {
+		d := anyToContainer(map[string]any{"x": "X"})
+		ex := pipeline.New(pipeline.WithData(d))
+		callee := pipeline.ActionSpec{}
+		callee.Operations.Template = &pipeline.TemplateOp{Template: "{{ .args.v }}/{{ .args.n.w }}/{{ .args.n.plain }}/{{ .args.k }}", Path: "got"}
+		if err := ex.Execute(&pipeline.DefineOp{Name: "f", Action: callee}); err != nil {
+			fail = append(fail, "define failed: "+err.Error())
+			return
+		}
+		call := &pipeline.CallOp{Name: "f", Args: args()}
+		for round, x := range []string{"X", "Y", "Z"}[:2+r.Intn(2)] {
+			d.AddValue("x", dom.LeafNode(x))
+			var clone pipeline.Action
+			_ = ex.Execute(&cloneProbe{run: func(ctx pipeline.ActionContext) { clone = call.CloneWith(ctx) }})
+			if err := ex.Execute(clone); err != nil {
+				fail = append(fail, fmt.Sprintf("round %d: executing the clone failed: %v", round, err))
+				return
+			}
+			if got, want := fmt.Sprint(nodeToAny(d).(map[string]any)["got"]), x+"/<"+x+">/p/7"; got != want {
+				fail = append(fail, fmt.Sprintf("round %d: the callee of the clone saw %q, expected %q", round, got, want))
+			}
+			if !reflect.DeepEqual(call.Args, args()) {
+				fail = append(fail, fmt.Sprintf("round %d: after a clone was executed the configured operation holds %v", round, call.Args))
+				return
+			}
+		}
+	})
+	if pn != "" {
+		fail = append(fail, "panic: "+pn)
+	}
+	return Case{Kind: "exec-equivalence", Desc: map[string]any{"op": "call cloned against changing data"}, Fail: fail, Nontrivial: true, Key: fmt.Sprint("callclones", r.Int())}
+}
+
 func c15Exec(r *rand.Rand) Case {
+	if r.Intn(6) == 0 {
+		return c15CallClones(r)
+	}
 	p := popCtx{r: r}
 	var mk func() pipeline.Action
 	name := ""
